@@ -367,7 +367,7 @@ func cmdSysAS(args []string) error {
 			}
 		}
 		tw.emit(map[string]interface{}{"ev": "reset", "round": round, "password": password, "keyEts": keyEts, "assume": assumeInit, "et": et, "customSalt": customSalt,
-			"family": family, "requirePA": w.requirePA, "script": append([]asStep{}, w.script...)})
+			"tkt": ets, "family": family, "requirePA": w.requirePA, "script": append([]asStep{}, w.script...)})
 		for login := 0; login < 3; login++ {
 			tw.emit(map[string]interface{}{"ev": "login"})
 			var lerr error
